@@ -6,20 +6,22 @@ CLAIMED = {
  'C02': ('model_checking', 'Same exploration with, at every merged state, an end-of-history capacity probe executed on the MIR (cancel all, return all, then exactly max_size non-blocking gets must succeed and one more must time out); deadpool-raised panics and self-deadlocks on any path are violations.', '8 C02'),
  'C03': ('model_checking', 'Every suspension point of get() is enumerated from the coroutine MIR (state discriminants reached are listed in the evidence) and abandoned by drop, by an enclosing timeout or by a panic of the manager/hook; single-task differential on ground truth + real status(), multi-task global invariants.', '8 C03'),
  'C04': ('model_checking', 'Per-object trail of verification steps (create, each hook, recycle) with solver-chosen outcomes; at every hand-out the trail must be the complete all-ok sequence in registration order; rejected objects must be destroyed and detached exactly once; error variants must match the failing step.', '8 C04'),
+ 'C05': ('model_checking', 'Bounded symbolic exploration of the real MIR of src/unmanaged/mod.rs: pools built by new / from_config / From<Vec>, every interleaving (task level and thread level at the schedule points between the steps of Object::drop, take, _add, try_get/timeout_get) of get/try_get/timeout_get/remove/try_remove/add/try_add/take/return with cancellation of waiting get()/add(); every object is a harness-owned identity tag whose place (pool / held by one caller / handed back) is tracked independently; status() and the queue length are compared with the ground truth at rest. One genuine defect is a known finding (K-C05).', '8 C05'),
  'C06': ('model_checking', 'Task-level and thread-level (schedule points in close/resize/return_object/detach_object) exploration of close() against gets in every phase, returns, takes and resize; ground-truth idle set of the closed pool at quiescence; results of all gets issued after close returned.', '8 C06'),
  'C07': ('model_checking', 'Histories of 1-3 resizes (targets 0..=3) interleaved with gets/returns/takes/retain; after every resize the real status().max_size, the ground-truth idle set and (at rest) a capacity probe against the last target; admissions of gets issued after the resize. Two genuine defects are known findings (K-C07a/b), decided by the role of the history in the concrete replay.', '8 C07'),
  'C08': ('model_checking', 'Reference queue built from the ground-truth return log predicts which idle object get() offers first (fifo and lifo), across rejects, retain and takes; create only with an empty idle set; every user callback is attributed to the operation in progress; building the pool (real builder MIR) logs no callback.', '8 C08'),
  'C09': ('model_checking', 'retain() with the predicate as an arbitrary per-call choice (any subset, stateful), take(), resize/close: removed set = rejected set, retained count, detach count per object exactly once iff the pool let go of it; thread-level take racing get/return.', '8 C09'),
  'C10': ('model_checking', 'Decision table over pool-level and per-call wait/create/recycle in {none, zero, finite} x runtime present/absent with the timer expiry of every Runtime::timeout instance racing the completion of its inner future; build() through the real builder MIR.', '8 C10'),
  'C11': ('model_checking', 'The real status() MIR is run on a copy of every explored state: exact against ground truth at rest, plausible otherwise; overflow asserts reachable = violation (dev profile) and a second family interprets failed overflow checks as wrapping (release profile) and bounds the counters.', '8 C11'),
+ 'C12': ('model_checking', 'Same world with close() as a three-step operation at thread level racing every other call in every phase: any panic raised inside deadpool on a feasible path, any object left in a closed pool at quiescence, any caller not answered with Closed after close() returned is a violation.', '8 C12'),
  'C13': ('model_checking', 'Symbolic monotone clock; per-object shadow of what Object::metrics() last reported; every Metrics value shown to hooks, recycle and retain predicates and every hand-out is compared with the shadow and the independent hand-out count.', '8 C13'),
 }
 NOTE = ('Trusted base: the mirsym interpreter and the library models of DESIGN.md section 4 (tokio Semaphore, std Mutex/Arc/VecDeque/atomics as sequentially consistent); '
         'validated on every run by executing random traces in the engine and in the real crate (translation validation) and by native replay of every counterexample. '
         'Bounds per family are in the evidence file; beyond them nothing is claimed.')
 NA = {
- 'C05': 'check not built yet (unmanaged world under construction)',
- 'C12': 'check not built yet (unmanaged world under construction)',
+ 
+ 
  'C14': 'check not built yet',
  'C15': 'check not built yet',
  'C16': 'check not built yet',
